@@ -33,6 +33,7 @@ func main() {
 	}
 	res := lib.NewResult("C07", f)
 	runCore(f, res)
+	runNested(f, res)
 	runRim(f, res)
 	runModels(f, res)
 	if err := res.Write(f.Out); err != nil {
@@ -67,6 +68,13 @@ func replay(f lib.Flags) int {
 		}
 		runCoreSeq(cs, nil, m, nil)
 		fmt.Printf("replay core sequence of %d ops\n", len(cs.Ops))
+	case "nested":
+		var ns nestedSeq
+		if err := json.Unmarshal(b, &ns); err != nil {
+			lib.Fatal(err)
+		}
+		runNestedSeq(ns, m)
+		fmt.Printf("replay core-nested seq=%d seed=%d steps=%d\n", ns.Seq, ns.Seed, ns.Steps)
 	case "rim":
 		var c rcase
 		if err := json.Unmarshal(b, &c); err != nil {
